@@ -73,6 +73,11 @@ W["F2-json-sel-vs-field"] = (["C01", "C02", "C06"], scenario("F2-json-sel-vs-fie
            [assign("=", idx(root("J"), atom(cstr("n"))), I(1))])],
     [ex(std_facts())]))
 
+W["F2-elem-field"] = (["C01", "C02", "C06"], scenario("F2-elem-field", [
+    mkrule("R", bin_("==", atom(var(fld(idx(path("F.AP"), V("F.J")), "N"))), I(0)),
+           [assign("=", fld(idx(path("F.AP"), I(0)), "N"), I(1))])],
+    [ex(std_facts())]))
+
 # F5: FetchMatchingRules keeps retractions of an earlier Execute
 W["F5-fetch-after-retract"] = (["C08", "C11"], scenario("F5-fetch-after-retract", [
     mkrule("R", bin_("==", V("F.I"), I(0)), [stmt(call("Retract", atom(cstr("R"))))])],
